@@ -52,6 +52,12 @@ row("bool_ptr", "void {n}(const bool a, bool *b +intent(out), bool *c +intent(in
 # ---- arrays
 row("arr_in", "{T} {n}(const {T} *a +rank(1), int n +implied(size(a)))", types=CORE,
     doc="pointers.yaml Sum/accumulate")
+# implied values that are expressions with literals / several arguments (docs/fortran.rst, attribute implied)
+row("implied_expr", [{"decl": "int {n}(int first, int count, int last +implied(first+count-1))"},
+                     {"decl": "int {n}b(const int *v +rank(1), int twice +implied(2*size(v)))"},
+                     {"decl": "int {n}c(double x, int eight +implied(8))"},
+                     {"decl": "int {n}d(const char *text, int ltext +implied(len(text)+1))"}], wraps=CF,
+    doc="docs/fortran.rst implied; pointers.yaml Sum")
 row("arr_in_sizet", "int {n}(const int *a +rank(1), size_t n +implied(size(a)))", doc="pointers.yaml accumulate")
 row("arr_out_dim", "void {n}(int n, {T} *a +intent(out)+dimension(n))", types=CORE,
     doc="pointers.yaml iota_dimension")
